@@ -188,6 +188,15 @@ class Deg:
         if isinstance(e, ast.BoolOp):
             return Z
         if isinstance(e, ast.Attribute):
+            key = ast.unparse(e)
+            if key in env:
+                return env[key]
+            if isinstance(e.value, ast.Call) and isinstance(
+                    e.value.func, ast.Attribute) \
+                    and e.value.func.attr == "normalized":
+                return Z            # a normalised object: degree 0
+            if e.attr in ("minkowski", "point"):
+                return Z if key not in env else env[key]
             if isinstance(e.value, ast.Name) and e.value.id in ("np", "utils"):
                 return Z
             if e.attr in ("shape", "ndim", "dtype"):
@@ -242,6 +251,14 @@ def _fmt(d):
     return "inhomogeneous" if d == MIXED else str(d)
 
 
+ATTR_TABLE = [
+    # (rel, method, attribute expression scaled, expected degree, why)
+    (HYP, "TangentVector.angle", "other.vector", 0,
+     "the angle does not depend on the length of the other tangent vector"),
+    (HYP, "TangentVector.angle", "self.vector", 0,
+     "the angle does not depend on the length of this tangent vector"),
+]
+
 TABLE = [
     # (rel, function, parameter, expected degree, why)
     (CORE, "projection", "v1", 1, "the projection of v1 is linear in v1"),
@@ -258,6 +275,18 @@ TABLE = [
     (HYP, "project_to_hyperboloid", "tangent_vector", 1,
      "projecting to the tangent space is linear in the vector"),
 ]
+
+
+def _run_attr(dg, fnode, attr):
+    env = {a.arg: Fraction(0) for a in fnode.args.args}
+    env[attr] = Fraction(1)
+    rets = []
+    dg.false_flags = [set()]
+    dg.block(fnode.body, env, rets)
+    out = rets[0] if rets else Fraction(0)
+    for x in rets[1:]:
+        out = same(out, x)
+    return out
 
 
 def rule_hd1(ctx):
@@ -303,4 +332,128 @@ def rule_hd1(ctx):
                 "up to scale, so the result changes when the representative "
                 "is rescaled (e.g. a point built from Klein coordinates, "
                 "whose stored vector is not unit-normalised)",
+                instance=inst)
+
+
+def rule_hd1_attr(ctx):
+    r = ctx.r
+    core = ctx.p.module_by_rel(CORE)
+    hyp = ctx.p.module_by_rel(HYP)
+    funcs = {}
+    for n in core.tree.body:
+        if isinstance(n, ast.FunctionDef):
+            funcs["utils." + n.name] = n
+    for n in hyp.tree.body:
+        if isinstance(n, ast.FunctionDef):
+            funcs[n.name] = n
+    for n in core.tree.body:
+        if isinstance(n, ast.FunctionDef):
+            funcs.setdefault(n.name, n)
+    for rel, q, attr, want, why in ATTR_TABLE:
+        f = ctx.p.get_function(rel, q)
+        r.analysed(f)
+        inst = f"{q}[{attr}]"
+        dg = Deg(funcs)
+        try:
+            got = _run_attr(dg, f.node, attr)
+        except Unsupported as e:
+            r.note("HD1", loc(f, f.node), inst, f"not evaluated: {e}")
+            continue
+        if got != MIXED and got == Fraction(want):
+            r.ok("HD1", inst, loc(f, f.node), "",
+                 f"degree {want} in `{attr}`: {why}")
+        else:
+            r.violation(
+                "HD1", f"{f.fq}|{attr}", loc(f, f.node), inst,
+                f"{q} is {_fmt(got)} in `{attr}` (expected degree {want}: "
+                f"{why}): for a tangent vector that is not unit length the "
+                "reported angle is wrong / NaN, so the law of cosines fails",
+                instance=inst)
+
+
+# ---------------------------------------------------------------------------
+# HD2: dimensional homogeneity of comparisons (lengths vs squared lengths)
+
+CP = "geometry_tools/complex_projective.py"
+
+
+def rule_hd2(ctx):
+    r = ctx.r
+    r.rule("HD2", "dimensional analysis: in CP1Disk.center_inside (and the "
+                  "affine disk predicates of utils.core) both sides of every "
+                  "comparison have the same degree in the unit of length "
+                  "(a distance is compared with a radius, a squared "
+                  "distance with a squared radius)")
+    core = ctx.p.module_by_rel(CORE)
+    funcs = {}
+    for n in core.tree.body:
+        if isinstance(n, ast.FunctionDef):
+            funcs["utils." + n.name] = n
+            funcs[n.name] = n
+    targets = [
+        (CP, "CP1Disk.center_inside",
+         {"circ_ctr": 1, "circ_rad": 1, "int_pt_coords": 1}),
+        (CORE, "disk_interactions", {"c1": 1, "r1": 1, "c2": 1, "r2": 1}),
+        (CORE, "affine_disks_contain",
+         {"cout": 1, "rout": 1, "cin": 1, "rin": 1}),
+    ]
+    for rel, q, lengths in targets:
+        f = ctx.p.get_function(rel, q)
+        r.analysed(f)
+        dg = Deg(funcs)
+        dg.false_flags = [set()]
+        env = {a.arg: Fraction(0) for a in f.node.args.args}
+        bad = []
+        ncmp = 0
+
+        def walk(body):
+            nonlocal ncmp
+            for st in body:
+                # bind names first (length-typed locals by table)
+                try:
+                    if isinstance(st, ast.Assign):
+                        try:
+                            d = dg.expr(st.value, env)
+                        except Unsupported:
+                            d = Fraction(0)
+                        for t in st.targets:
+                            for nm in ast.walk(t):
+                                if isinstance(nm, ast.Name) and isinstance(
+                                        nm.ctx, ast.Store):
+                                    env[nm.id] = Fraction(lengths[nm.id]) \
+                                        if nm.id in lengths else d
+                    for c in ast.walk(st) if not isinstance(
+                            st, (ast.If, ast.For, ast.While, ast.With)) \
+                            else ast.walk(getattr(st, "test", ast.Pass())):
+                        if isinstance(c, ast.Compare) and len(c.ops) == 1 \
+                                and isinstance(c.ops[0], (ast.Lt, ast.LtE,
+                                                          ast.Gt, ast.GtE)):
+                            a = dg.expr(c.left, env)
+                            b = dg.expr(c.comparators[0], env)
+                            ncmp += 1
+                            if a == MIXED or b == MIXED or a != b:
+                                bad.append((c, a, b))
+                except Unsupported:
+                    pass
+                for fld in ("body", "orelse"):
+                    sub = getattr(st, fld, None)
+                    if isinstance(sub, list):
+                        walk(sub)
+        for p_, dgr in lengths.items():
+            if p_ in env:
+                env[p_] = Fraction(dgr)
+        walk(f.node.body)
+        inst = f"{q}:comparisons"
+        if not bad:
+            r.ok("HD2", inst, loc(f, f.node), "",
+                 f"{ncmp} comparison(s), all dimensionally homogeneous")
+        else:
+            c, a, b = bad[0]
+            r.violation(
+                "HD2", f"{f.fq}|{ast.unparse(c)[:80]}", loc(f, c),
+                ast.unparse(c)[:140],
+                f"`{ast.unparse(c)[:80]}` compares a quantity of degree "
+                f"{_fmt(a)} in the unit of length with one of degree "
+                f"{_fmt(b)}: the answer changes when all coordinates are "
+                "rescaled, and is wrong whenever the radius is not 1",
                 instance=inst)
